@@ -29,6 +29,17 @@ Diverged(P, a, b) == a # Null /\ b # Null /\ a \notin Anc(P, b) /\ b \notin Anc(
 \* GenericInterBranch._update_revisions without overwrite: already merged -> unchanged, else fast-forward
 PullTip(P, mine, theirs) == IF theirs = Null \/ theirs \in Anc(P, mine) THEN mine ELSE theirs
 
+\* WorkingTree.set_parent_trees / set_parent_ids: the first parent always stays, later ones only if they are heads of the
+\* whole list and not yet listed
+HeadsF(P, S) == LET T == S \ {Null} IN {x \in T : \A y \in T \ {x} : x \notin Anc(P, y)}
+RECURSIVE FilterRest(_, _, _)
+FilterRest(rest, heads, acc) ==
+    IF rest = <<>> THEN acc
+    ELSE FilterRest(Tail(rest), heads,
+                    IF Head(rest) \in heads /\ Head(rest) \notin SeqRange(acc) THEN Append(acc, Head(rest)) ELSE acc)
+FilterParents(P, ids) == IF ids = <<>> THEN <<>> ELSE FilterRest(Tail(ids), HeadsF(P, SeqRange(ids)), <<ids[1]>>)
+SetParents(W, c, ids) == LET f == FilterParents(W.P, ids) IN [W EXCEPT !.basis[c] = f[1], !.pend[c] = Tail(f)]
+
 Act(op, c, src, fault) == [op |-> op, c |-> c, src |-> src, fault |-> fault]
 TreeParents(W, c) == (IF W.basis[c] = Null THEN <<>> ELSE <<W.basis[c]>>) \o W.pend[c]
 NewRev(W) == Len(W.P) + 1
@@ -68,11 +79,12 @@ CommitMaster(W) ==
     IN Out([W EXCEPT !.P = Append(W.P, IF W.tip["M"] = Null THEN <<>> ELSE <<W.tip["M"]>>), !.tip["M"] = r], "ok")
 
 \* WorkingTree.update: a bound branch is overwritten with the master's tip (BzrBranch.update); a local tip that is not
-\* merged in the new tip is kept as a pending merge of the tree; the tree moves to the branch tip
+\* merged in the new tip is kept as a pending merge of the tree (_update_tree: only when the tree's basis has to move)
 Update(W, c) ==
     LET new == IF W.bound[c] THEN W.tip["M"] ELSE W.tip[c]
         old == IF W.bound[c] /\ W.tip[c] # Null /\ W.tip[c] \notin Anc(W.P, new) THEN <<W.tip[c]>> ELSE <<>>
-    IN Out([W EXCEPT !.tip[c] = new, !.basis[c] = new, !.pend[c] = @ \o old], "ok")
+        w1 == [W EXCEPT !.tip[c] = new]
+    IN Out(IF W.basis[c] # new THEN SetParents(w1, c, <<new>> \o W.pend[c] \o old) ELSE w1, "ok")
 
 \* WorkingTree.pull(src): a bound branch first pulls src into its master (unless src is the master), then into itself;
 \* the tree follows when the local tip moved
@@ -81,9 +93,10 @@ Pull(W, c, s) ==
         mt == IF viaMaster THEN PullTip(W.P, W.tip["M"], W.tip[s]) ELSE W.tip["M"]
         lt == PullTip(W.P, W.tip[c], W.tip[s])
         w1 == [W EXCEPT !.tip["M"] = mt]
+        w2 == [w1 EXCEPT !.tip[c] = lt]
     IN IF viaMaster /\ Diverged(W.P, W.tip["M"], W.tip[s]) THEN Out(W, "DivergedBranches")
        ELSE IF Diverged(W.P, W.tip[c], W.tip[s]) THEN Out(w1, "DivergedBranches")       \* the master has already moved
-       ELSE Out([w1 EXCEPT !.tip[c] = lt, !.basis[c] = IF lt # W.tip[c] THEN lt ELSE @], "ok")
+       ELSE Out(IF lt # W.tip[c] THEN SetParents(w2, c, <<lt>> \o W.pend[c]) ELSE w2, "ok")
 
 Bind(W, c) == Out([W EXCEPT !.bound[c] = TRUE], "ok")          \* BzrBranch.bind does not compare the histories
 Unbind(W, c) == Out([W EXCEPT !.bound[c] = FALSE], "ok")
